@@ -225,8 +225,11 @@ def drivers(kind):
 
 def conditions(tier):
     out = []
-    k = 3 if tier == "thorough" else 2
+    thorough = tier == "thorough"
     for kind in CLIENT_KINDS:
+        # 3-step histories: 20-26 operations per step; measured 115 000 paths / 65 min for
+        # all kinds, so the thorough tier runs them for the relayed kind and one device-bound kind
+        k = 3 if (thorough and kind in ("GetProperties", "NewTextVector")) else 2
         for pop in ("abc", "twins"):
             if pop == "twins" and kind not in ("GetProperties", "NewTextVector", "EnableBLOB"):
                 continue
